@@ -1,4 +1,5 @@
 import Fpdec.Model.Decimal
+import Fpdec.Std
 
 /-!
 # Model of `src/format.rs`
@@ -9,7 +10,7 @@ Strings are byte lists.  Rust's integer `Display` (`{}` of an `i128`), the zero-
 -/
 
 namespace Fpdec.Model
-open Fpdec
+open Fpdec Fpdec.Std
 
 /-- decimal digits of a natural number, most significant first, as ASCII bytes -/
 def decDigitsAux : Nat → Nat → List Nat → List Nat
@@ -42,36 +43,6 @@ def toStringDec (prof : Profile) (d : Dec) : Outcome (List Nat) :=
 def debugDec (prof : Profile) (d : Dec) : Outcome (List Nat) := do
   let s ← toStringDec prof d
   pure ([68, 101, 99, 33, 40] ++ s ++ [41])
-
-/-- formatting flags of a `{:…}` placeholder -/
-structure FmtSpec where
-  fill : Nat := 32
-  /-- 0 = unspecified, 1 = `<`, 2 = `^`, 3 = `>` -/
-  align : Nat := 0
-  plus : Bool := false
-  zero : Bool := false
-  width : Option Nat := none
-  prec : Option Nat := none
-deriving Repr, Inhabited
-
-/-- `Formatter::pad_integral(is_nonnegative, "", buf)` -/
-def padIntegral (f : FmtSpec) (nonneg : Bool) (buf : List Nat) : List Nat :=
-  let sign : List Nat := if !nonneg then [45] else if f.plus then [43] else []
-  let width := buf.length + sign.length
-  match f.width with
-  | none => sign ++ buf
-  | some min =>
-    if width ≥ min then sign ++ buf
-    else if f.zero then
-      sign ++ List.replicate (min - width) 48 ++ buf
-    else
-      let padding := min - width
-      let (pre, post) :=
-        match f.align with
-        | 1 => (0, padding)
-        | 2 => (padding / 2, (padding + 1) / 2)
-        | _ => (padding, 0)
-      List.replicate pre f.fill ++ sign ++ buf ++ List.replicate post f.fill
 
 /-- `impl Display for Decimal` -/
 def display (prof : Profile) (tm : Mode) (f : FmtSpec) (d : Dec) : Outcome (List Nat) := do
